@@ -567,7 +567,7 @@ func (e *Eng) evalCall(n *ECall, env *Env, cur, old *State) *Val {
 		return bval(sx(">=", a.T, e.get(old, frRegion, "Int")))
 	case "allocated":
 		a := e.eval(n.Args[0], env, cur, old)
-		return bval(sx("<", a.T, e.get(cur, frRegion, "Int")))
+		return bval(and(sx("<", "0", a.T), sx("<", a.T, e.get(cur, frRegion, "Int"))))
 	case "toReal":
 		a := e.eval(n.Args[0], env, cur, old)
 		if a.sortName(e) == "Real" {
